@@ -1465,7 +1465,7 @@ def main(argv=None):
     pr = total.probe
     res.probes = [
         {"assumption": f"the library's schedule read with fresh memos equals the own evaluator before and after flatten ({pr['oracle_vs_library_checked']} observations, "
-                       f"{pr['oracle_vs_library_mismatch']} mismatches); the duration of a composite is evaluated with the library's first-level-start / relation-leaf-end definition (C04 is judged elsewhere)",
+                       f"{pr['oracle_vs_library_mismatch']} mismatches); the duration of a sub-circuit is the span from the earliest start to the latest end over all operations it contains (bounded/c18.py's Evaluator; the library's definition since the C04 repair)",
          "ok": pr["oracle_vs_library_mismatch"] == 0},
         {"assumption": f"flatten() keeps the operation objects of library circuits (replaced in {pr['lib_objects_replaced']} cases); order and schedule are compared per object", "ok": pr["lib_objects_replaced"] == 0},
         {"assumption": f"outside the statement (arbitrary modifier-applied build programs, {pr['prog_mod_cases']} cases): flatten changes the listing order in {pr['prog_order_changes']} and "
